@@ -20,7 +20,7 @@ func decodeBound(p *Prog) *Bound {
 		func(fn *ssa.Function) bool {
 			// preconditions only for unexported helpers that are not interface methods
 			return isUnexportedFunc(fn)
-		})
+		}, nil)
 	B.run()
 	decodeBoundCache = B
 	return B
